@@ -1,7 +1,7 @@
 """V ast_lifetimes: ast::LifetimeEnv::extend_implicit_lifetime_bounds — after visiting a type, every lifetime `'b` of a
 named type behind a reference `&'a T<'b>` is (transitively) longer than `'a` in the env (bounds implied by the types used);
-existing edges are preserved.  Callees LifetimeTransitivity::longer_than and extend_bounds are abstract here (part B verifies
-the former)."""
+existing edges are preserved.  Part B: the recursive DFS of ast::LifetimeTransitivity (longer_than / shorter_than) returns
+exactly the names of the lifetimes reachable in the chosen direction.  Callee extend_bounds (generic iterators) is abstract."""
 import re
 from rsrc import Src, Piece, rule_panics, match_close
 from verus_engine import VerusFile, CANARY
@@ -176,20 +176,201 @@ pub fn __contains_name(v: &Vec<&NamedLifetime>, x: &NamedLifetime) -> (r: bool)
     ensures r == in_names(v@, *x)
 { unimplemented!() }
 
-pub struct LifetimeTransitivity { pub x: u8 }
-impl LifetimeTransitivity {
-    // callee contract (assumed here): exactly the names of the lifetimes transitively longer than `named`
-    #[verifier::external_body]
-    pub fn longer_than<'env>(env: &'env LifetimeEnv, named: &NamedLifetime) -> (r: Vec<&'env NamedLifetime>)
-        ensures forall|v: int| 0 <= v < env.nodes@.len() ==>
-            (in_names(r@, (#[trigger] env.nodes@[v]).lifetime) <==> exists|s: int| has_id(env, *named, s) && reach_l(env, s, v)),
-    { unimplemented!() }
-    // dual query (no contract needed by the verified code)
-    #[verifier::external_body]
-    pub fn shorter_than<'env>(env: &'env LifetimeEnv, named: &NamedLifetime) -> (r: Vec<&'env NamedLifetime>)
-    { unimplemented!() }
+// ---- part B: the DFS behind longer_than / shorter_than
+pub open spec fn succs(env: &LifetimeEnv, dir: LongerOrShorter, v: int) -> Seq<usize> {
+    if 0 <= v < env.nodes@.len() { if dir is Longer { env.nodes@[v].longer@ } else { env.nodes@[v].shorter@ } } else { Seq::empty() }
+}
+pub open spec fn edge_d(env: &LifetimeEnv, dir: LongerOrShorter, a: int, b: int) -> bool {
+    exists|k: int| 0 <= k < succs(env, dir, a).len() && #[trigger] succs(env, dir, a)[k] == b
+}
+pub open spec fn is_path_d(env: &LifetimeEnv, dir: LongerOrShorter, p: Seq<int>) -> bool {
+    p.len() >= 1 && forall|i: int| 0 <= i < p.len() - 1 ==> edge_d(env, dir, #[trigger] p[i], p[i + 1])
+}
+pub open spec fn reach_d(env: &LifetimeEnv, dir: LongerOrShorter, a: int, b: int) -> bool {
+    exists|p: Seq<int>| is_path_d(env, dir, p) && p[0] == a && p[p.len() - 1] == b
+}
+// edge indices stay inside the node table (extend_bounds only pushes ids it looked up)
+pub open spec fn wf_env(env: &LifetimeEnv) -> bool {
+    forall|dir: LongerOrShorter, a: int, k: int| 0 <= a < env.nodes@.len() && 0 <= k < succs(env, dir, a).len()
+        ==> (#[trigger] succs(env, dir, a)[k]) < env.nodes@.len()
+}
+pub proof fn lemma_longer_is_l(env: &LifetimeEnv, a: int, b: int)
+    ensures reach_d(env, LongerOrShorter::Longer, a, b) ==> reach_l(env, a, b),
+            reach_l(env, a, b) && 0 <= a < env.nodes@.len() ==> reach_d(env, LongerOrShorter::Longer, a, b),
+{
+    if reach_d(env, LongerOrShorter::Longer, a, b) {
+        let p = choose|p: Seq<int>| is_path_d(env, LongerOrShorter::Longer, p) && p[0] == a && p[p.len() - 1] == b;
+        assert forall|i: int| 0 <= i < p.len() - 1 implies edge_l(env, #[trigger] p[i], p[i + 1]) by {
+            assert(edge_d(env, LongerOrShorter::Longer, p[i], p[i + 1]));
+            let k = choose|k: int| 0 <= k < succs(env, LongerOrShorter::Longer, p[i]).len() && #[trigger] succs(env, LongerOrShorter::Longer, p[i])[k] == p[i + 1];
+            assert(env.nodes@[p[i]].longer@[k] == p[i + 1]);
+        }
+        assert(is_path_l(env, p));
+    }
+    if reach_l(env, a, b) && 0 <= a < env.nodes@.len() {
+        let p = choose|p: Seq<int>| is_path_l(env, p) && p[0] == a && p[p.len() - 1] == b;
+        assert forall|i: int| 0 <= i < p.len() - 1 implies edge_d(env, LongerOrShorter::Longer, #[trigger] p[i], p[i + 1]) by {
+            assert(edge_l(env, p[i], p[i + 1]));
+            let k = choose|k: int| 0 <= k < env.nodes@[p[i]].longer@.len() && #[trigger] env.nodes@[p[i]].longer@[k] == p[i + 1];
+            assert(succs(env, LongerOrShorter::Longer, p[i])[k] == p[i + 1]);
+        }
+        assert(is_path_d(env, LongerOrShorter::Longer, p));
+    }
+}
+pub proof fn lemma_reach_prepend(env: &LifetimeEnv, dir: LongerOrShorter, a: int, b: int, c: int)
+    requires edge_d(env, dir, a, b), reach_d(env, dir, b, c),
+    ensures reach_d(env, dir, a, c),
+{
+    let p = choose|p: Seq<int>| is_path_d(env, dir, p) && p[0] == b && p[p.len() - 1] == c;
+    let q = seq![a] + p;
+    assert forall|i: int| 0 <= i < q.len() - 1 implies edge_d(env, dir, #[trigger] q[i], q[i + 1]) by {
+        if i == 0 { assert(q[0] == a && q[1] == p[0]); } else { assert(q[i] == p[i - 1] && q[i + 1] == p[i]); }
+    }
+    assert(is_path_d(env, dir, q) && q[0] == a && q[q.len() - 1] == c);
+}
+pub proof fn lemma_reach_refl_d(env: &LifetimeEnv, dir: LongerOrShorter, a: int)
+    ensures reach_d(env, dir, a, a),
+{
+    let p = seq![a];
+    assert(is_path_d(env, dir, p) && p[0] == a && p[p.len() - 1] == a);
+}
+// a successor-closed visited set that contains the start contains everything reachable from it
+pub proof fn lemma_closed_contains_reach_d(env: &LifetimeEnv, dir: LongerOrShorter, visited: Seq<bool>, start: int, p: Seq<int>)
+    requires
+        wf_env(env), visited.len() == env.nodes@.len(), 0 <= start < visited.len(), visited[start],
+        forall|v: int, k: int| 0 <= v < visited.len() && visited[v] && 0 <= k < succs(env, dir, v).len() ==> visited[#[trigger] succs(env, dir, v)[k] as int],
+        is_path_d(env, dir, p), p[0] == start,
+    ensures 0 <= p[p.len() - 1] < visited.len() && visited[p[p.len() - 1]],
+    decreases p.len(),
+{
+    if p.len() > 1 {
+        let q = p.drop_last();
+        assert(is_path_d(env, dir, q)) by {
+            assert forall|i: int| 0 <= i < q.len() - 1 implies edge_d(env, dir, #[trigger] q[i], q[i + 1]) by { assert(q[i] == p[i] && q[i + 1] == p[i + 1]); }
+        }
+        lemma_closed_contains_reach_d(env, dir, visited, start, q);
+        let a = q[q.len() - 1];
+        assert(a == p[p.len() - 2]);
+        assert(edge_d(env, dir, p[p.len() - 2], p[p.len() - 2 + 1]));
+        let k = choose|k: int| 0 <= k < succs(env, dir, a).len() && #[trigger] succs(env, dir, a)[k] == p[p.len() - 1];
+        assert(visited[succs(env, dir, a)[k] as int]);
+    }
+}
+// derived PartialEq on NamedLifetime is structural (A-derive)
+#[verifier::external_body]
+pub fn __name_eq(a: &NamedLifetime, b: &NamedLifetime) -> (r: bool) ensures r == (*a == *b) { unimplemented!() }
+"""
+
+T_SPECS = r"""
+impl<'env> LifetimeTransitivity<'env> {
+    pub open spec fn out_matches(&self) -> bool {
+        forall|v: int| 0 <= v < self.env.nodes@.len() ==> (self.visited@[v] <==> in_names(self.out@, (#[trigger] self.env.nodes@[v]).lifetime))
+    }
+    pub open spec fn t_inv(&self) -> bool {
+        &&& wf_env(self.env) && names_distinct(self.env)
+        &&& self.visited@.len() == self.env.nodes@.len()
+        &&& self.out_matches()
+        &&& forall|k: int| 0 <= k < self.out@.len() ==> declared(self.env, *#[trigger] self.out@[k])
+    }
 }
 """
+
+DFS_CONTRACT = f"""        requires old(self).t_inv(), index < old(self).env.nodes@.len(),
+        ensures {CANARY}
+            final(self).t_inv(), final(self).env == old(self).env, final(self).longer_or_shorter == old(self).longer_or_shorter,
+            forall|v: int| 0 <= v < old(self).visited@.len() && old(self).visited@[v] ==> final(self).visited@[v],
+            final(self).visited@[index as int],
+            // everything newly visited is successor-closed ...
+            forall|v: int, k: int| 0 <= v < final(self).visited@.len() && final(self).visited@[v] && !old(self).visited@[v]
+                && 0 <= k < succs(old(self).env, old(self).longer_or_shorter, v).len()
+                ==> final(self).visited@[#[trigger] succs(old(self).env, old(self).longer_or_shorter, v)[k] as int],
+            // ... and reachable from `index`
+            forall|v: int| 0 <= v < final(self).visited@.len() && #[trigger] final(self).visited@[v] && !old(self).visited@[v]
+                ==> reach_d(old(self).env, old(self).longer_or_shorter, index as int, v),"""
+
+DFS_LOOP_INV = """                invariant
+                    self.t_inv(), self.env == old(self).env, self.longer_or_shorter == old(self).longer_or_shorter,
+                    index < self.env.nodes@.len(), !old(self).visited@[index as int],
+                    node == self.env.nodes@[index as int],
+                    forall|v: int| 0 <= v < old(self).visited@.len() && old(self).visited@[v] ==> self.visited@[v],
+                    self.visited@[index as int],
+                    // successors of `index` handled so far are visited
+                    forall|k: int| 0 <= k < it.index@ ==> self.visited@[#[trigger] succs(self.env, self.longer_or_shorter, index as int)[k] as int],
+                    // newly visited nodes other than `index` are closed
+                    forall|v: int, k: int| 0 <= v < self.visited@.len() && self.visited@[v] && !old(self).visited@[v] && v != index
+                        && 0 <= k < succs(self.env, self.longer_or_shorter, v).len()
+                        ==> self.visited@[#[trigger] succs(self.env, self.longer_or_shorter, v)[k] as int],
+                    forall|v: int| 0 <= v < self.visited@.len() && #[trigger] self.visited@[v] && !old(self).visited@[v]
+                        ==> reach_d(self.env, self.longer_or_shorter, index as int, v),"""
+
+DFS_BODY_HINT = """                let ghost vis_before = self.visited@;
+                proof {
+                    assert(edge_index__r == succs(self.env, self.longer_or_shorter, index as int)[it.index@]);
+                    assert(edge_d(self.env, self.longer_or_shorter, index as int, *edge_index__r as int));
+                }"""
+
+DFS_AFTER_CALL = """
+                proof {
+                    let env = self.env; let dir = self.longer_or_shorter;
+                    assert forall|v: int| 0 <= v < self.visited@.len() && #[trigger] self.visited@[v] && !old(self).visited@[v]
+                        implies reach_d(env, dir, index as int, v) by {
+                        if !vis_before[v] { lemma_reach_prepend(env, dir, index as int, edge_index as int, v); }
+                    }
+                    assert forall|v: int, k: int| 0 <= v < self.visited@.len() && self.visited@[v] && !old(self).visited@[v] && v != index
+                        && 0 <= k < succs(env, dir, v).len() implies self.visited@[#[trigger] succs(env, dir, v)[k] as int] by {
+                        if vis_before[v] { assert(vis_before[succs(env, dir, v)[k] as int]); }
+                    }
+                    assert forall|k: int| 0 <= k < it.index@ + 1 implies self.visited@[#[trigger] succs(env, dir, index as int)[k] as int] by {
+                        if k < it.index@ { assert(vis_before[succs(env, dir, index as int)[k] as int]); }
+                    }
+                }"""
+
+DFS_MARK_HINT = """
+            proof {
+                // after marking `index` and pushing its name the name list still mirrors the visited set
+                let env = self.env;
+                assert(self.out@[self.out@.len() - 1] == &node.lifetime);
+                lemma_reach_refl_d(env, self.longer_or_shorter, index as int);
+                assert(has_id(env, node.lifetime, index as int));
+                assert forall|v: int| 0 <= v < env.nodes@.len() implies (self.visited@[v] <==> in_names(self.out@, (#[trigger] env.nodes@[v]).lifetime)) by {
+                    let o0 = old(self).out@;
+                    if v == index {
+                        assert(*self.out@[o0.len() as int] == env.nodes@[v].lifetime);
+                    } else {
+                        if in_names(o0, env.nodes@[v].lifetime) {
+                            let k = choose|k: int| 0 <= k < o0.len() && *#[trigger] o0[k] == env.nodes@[v].lifetime;
+                            assert(self.out@[k] == o0[k]);
+                        }
+                        if in_names(self.out@, env.nodes@[v].lifetime) {
+                            let k = choose|k: int| 0 <= k < self.out@.len() && *#[trigger] self.out@[k] == env.nodes@[v].lifetime;
+                            if k == o0.len() { assert(env.nodes@[v].lifetime == env.nodes@[index as int].lifetime); }
+                            else { assert(self.out@[k] == o0[k]); }
+                        }
+                    }
+                }
+                assert forall|k: int| 0 <= k < self.out@.len() implies declared(env, *#[trigger] self.out@[k]) by {
+                    if k < old(self).out@.len() { assert(self.out@[k] == old(self).out@[k]); }
+                }
+            }"""
+
+POSITION_LOOP = """{
+            // E7: `self.env.nodes.iter().position(|node| node.lifetime == *named)` desugared (first index whose name equals `named`)
+            let mut found__: Option<usize> = None;
+            let mut i__: usize = 0;
+            while i__ < self.env.nodes.len()
+                invariant
+                    i__ <= self.env.nodes@.len(), *self == *old(self),
+                    found__ is Some ==> found__->Some_0 < i__ && self.env.nodes@[found__->Some_0 as int].lifetime == *named,
+                    found__ is None ==> forall|k: int| 0 <= k < i__ ==> (#[trigger] self.env.nodes@[k]).lifetime != *named,
+                decreases self.env.nodes@.len() - i__,
+            {
+                if found__.is_none() && __name_eq(&self.env.nodes[i__].lifetime, named) {
+                    found__ = Some(i__);
+                }
+                i__ += 1;
+            }
+            found__
+        }"""
 
 EXTEND_BOUNDS = r"""
     // callee contract (assumed here; the real extend_bounds is generic over iterators): for every (lifetime, Some(bound)) pair
@@ -200,23 +381,23 @@ EXTEND_BOUNDS = r"""
             forall|k: int| 0 <= k < pairs@.len() ==> declared(old(self), *(#[trigger] pairs@[k]).0)
                 && (pairs@[k].1 is Some ==> declared(old(self), *pairs@[k].1->Some_0)),
         ensures
-            env_le(old(self), final(self)),
+            env_le(old(self), final(self)), wf_env(old(self)) ==> wf_env(final(self)),
             forall|k: int, il: int, ib: int| #![trigger has_id(final(self), *pairs@[k].0, il), has_id(final(self), *pairs@[k].1->Some_0, ib)]
                 0 <= k < pairs@.len() && pairs@[k].1 is Some
                 && has_id(final(self), *pairs@[k].0, il) && has_id(final(self), *pairs@[k].1->Some_0, ib) ==> edge_l(final(self), ib, il),
     { unimplemented!() }
 """
 
-CONTRACT = f"""        requires all_declared(old(self), *typ, opt_name(behind_ref)), names_distinct(old(self)),
+CONTRACT = f"""        requires all_declared(old(self), *typ, opt_name(behind_ref)), names_distinct(old(self)), wf_env(old(self)),
         ensures {CANARY}
-            env_le(old(self), final(self)), names_distinct(final(self)),
+            env_le(old(self), final(self)), names_distinct(final(self)), wf_env(final(self)),
             implied_ok(final(self), *typ, opt_name(behind_ref)),
         decreases typ,"""
 
 LOOP_INV = """                        invariant
                             *typ == TypeName::Named(*path_type),
                             behind_ref == Some(borrow_lifetime),
-                            *self == *old(self), names_distinct(self),
+                            *self == *old(self), names_distinct(self), wf_env(self),
                             all_declared(self, *typ, opt_name(behind_ref)),
                             forall|k: int| 0 <= k < implicit_longer_than_borrow@.len() ==> declared(self, *#[trigger] implicit_longer_than_borrow@[k]),
                             // every named lifetime seen so far is already known longer than the borrow, or queued to be added
@@ -249,8 +430,9 @@ ELSE_HINT = """ else {
                                     let n = *path_lifetime;
                                     assert forall|ia: int, ib: int| has_id(self, *borrow_lifetime, ia) && has_id(self, n, ib) implies reach_l(self, ia, ib) by {
                                         assert(in_names(explicit_longer_than_borrow@, self.nodes@[ib].lifetime));
-                                        let s = choose|s: int| has_id(self, *borrow_lifetime, s) && reach_l(self, s, ib);
+                                        let s = choose|s: int| has_id(self, *borrow_lifetime, s) && reach_d(self, LongerOrShorter::Longer, s, ib);
                                         assert(s == ia);
+                                        lemma_longer_is_l(self, ia, ib);
                                     }
                                 }
                             }"""
@@ -337,7 +519,83 @@ def build(tier):
     vhelp.typedef(vf, types, "TypeName", "enum")
     vf.add(SPECS)
     vf.add("pub open spec fn opt_name(o: Option<&NamedLifetime>) -> Option<NamedLifetime> { match o { Some(n) => Some(*n), None => None } }\n")
+
+    # ---- part B: the real DFS
+    vf.add("impl LifetimeEnv {\n")
+    p = Piece(src, src.item("impl LifetimeEnv::len", "fn"))
+    p.contract("        ensures r == self.nodes@.len(),", ret_name="r")
+    vf.add_piece(p)
+    vf.add("}\n")
+    vhelp.typedef(vf, src, "LongerOrShorter", "enum", derive=vhelp.FIELDLESS_DERIVE)
     vf.add(CALLEES)
+    pubf = lambda names: [("E1", r"\n    (" + "|".join(names) + "):", r"\n    pub \1:")]
+    vhelp.typedef(vf, src, "LifetimeTransitivity", "struct", subs=pubf(["env", "visited", "out", "longer_or_shorter"]))
+    vf.add(T_SPECS)
+    vf.add("impl LongerOrShorter {\n")
+    p = Piece(src, src.item("impl LongerOrShorter::edges", "fn"))
+    p.contract("        ensures r@ == (if *self is Longer { node.longer@ } else { node.shorter@ }),", ret_name="r")
+    p.sub("E7", r"&node\.(longer|shorter)\[\.\.\]", r"node.\1.as_slice()", count=2, why="full-range slicing `&v[..]` spelled `v.as_slice()`")
+    vf.add_piece(p, expected="edges")
+    vf.add("}\nimpl<'env> LifetimeTransitivity<'env> {\n")
+    p = Piece(src, src.item("impl LifetimeTransitivity<'env>::new", "fn"))
+    p.contract(f"""        requires wf_env(env), names_distinct(env),
+        ensures {CANARY} r.t_inv(), r.env == env, r.longer_or_shorter == longer_or_shorter, r.out@.len() == 0,
+            forall|v: int| 0 <= v < r.visited@.len() ==> !r.visited@[v],""", ret_name="r")
+    vf.add_piece(p, expected="new")
+    it = src.item("impl LifetimeTransitivity<'env>::dfs", "fn")
+    p = Piece(src, it)
+    p.expect_loops(1)
+    p.contract(DFS_CONTRACT)
+    lp = it["loops"][0]
+    pat = src.slice(lp["pat"][0], lp["pat"][1])
+    if pat != "&edge_index":
+        raise Undecided("anchor-lost", "dfs: loop pattern is no longer `&edge_index`")
+    p.replace("E10", lp["pat"][0], lp["pat"][1], "edge_index__r", "`for &x in` spelled with an explicit deref")
+    p.loop_spec(0, DFS_LOOP_INV, iter_name="it")
+    p.loop_body_prefix(0, "                let edge_index = *edge_index__r;\n" + DFS_BODY_HINT)
+    p.sub("E4", r"(self\.dfs\(edge_index\);)", lambda m: m.group(1) + DFS_AFTER_CALL, count=1, why="ghost hints after the recursive call")
+    p.sub("E4", r"(self\.out\.push\(&node\.lifetime\);)", lambda m: m.group(1) + DFS_MARK_HINT, count=1, why="ghost hints after marking")
+    vf.add("    #[verifier::exec_allows_no_decreases_clause]\n    #[verifier::loop_isolation(false)]\n")
+    vf.add_piece(p, expected="dfs")
+    p = Piece(src, src.item("impl LifetimeTransitivity<'env>::visit", "fn"))
+    p.contract(f"""        requires old(self).t_inv(), forall|v: int| 0 <= v < old(self).visited@.len() ==> !old(self).visited@[v],
+        ensures {CANARY} final(self).t_inv(), final(self).env == old(self).env, final(self).longer_or_shorter == old(self).longer_or_shorter,
+            forall|v: int| 0 <= v < final(self).visited@.len() ==>
+                (#[trigger] final(self).visited@[v] <==> exists|s: int| has_id(old(self).env, *named, s) && reach_d(old(self).env, old(self).longer_or_shorter, s, v)),""")
+    def e7_position(text):
+        m = re.search(r"self\s*\.env\s*\.nodes\s*\.iter\(\)\s*\.position\(\|node\| node\.lifetime == \*named\)", text)
+        if not m:
+            raise Undecided("edit-mismatch", "E7: `self.env.nodes.iter().position(|node| node.lifetime == *named)` not found")
+        return text[:m.start()] + POSITION_LOOP + text[m.end():], [(m.group(0), "index loop")]
+    p.fn("E7", e7_position, why="Iterator::position desugared")
+    p.sub("E4", r"(self\.dfs\(id\);)", lambda m: m.group(1) + """
+            proof {
+                let env = self.env; let dir = self.longer_or_shorter;
+                assert forall|s: int| has_id(env, *named, s) implies s == id by { }
+                assert forall|v: int| 0 <= v < self.visited@.len() implies
+                    (#[trigger] self.visited@[v] <==> exists|s: int| has_id(env, *named, s) && reach_d(env, dir, s, v)) by {
+                    if self.visited@[v] { assert(has_id(env, *named, id as int) && reach_d(env, dir, id as int, v)); }
+                    if exists|s: int| has_id(env, *named, s) && reach_d(env, dir, s, v) {
+                        let s = choose|s: int| has_id(env, *named, s) && reach_d(env, dir, s, v);
+                        assert(s == id);
+                        let p = choose|p: Seq<int>| is_path_d(env, dir, p) && p[0] == id as int && p[p.len() - 1] == v;
+                        lemma_closed_contains_reach_d(env, dir, self.visited@, id as int, p);
+                    }
+                }
+            }""", count=1, why="ghost: closure + start visited => exactly the reachable set")
+    vf.add_piece(p, expected="visit")
+    p = Piece(src, src.item("impl LifetimeTransitivity<'env>::finish", "fn"))
+    p.contract(f"        ensures {CANARY} r == self.out,", ret_name="r")
+    vf.add_piece(p, expected="finish")
+    for fn, dirn in (("longer_than", "Longer"), ("shorter_than", "Shorter")):
+        p = Piece(src, src.item(f"impl LifetimeTransitivity<'env>::{fn}", "fn"))
+        p.contract(f"""        requires wf_env(env), names_distinct(env),
+        ensures {CANARY}
+            forall|v: int| 0 <= v < env.nodes@.len() ==>
+                (in_names(r@, (#[trigger] env.nodes@[v]).lifetime) <==> exists|s: int| has_id(env, *named, s) && reach_d(env, LongerOrShorter::{dirn}, s, v)),
+            forall|k: int| 0 <= k < r@.len() ==> declared(env, *#[trigger] r@[k]),""", ret_name="r")
+        vf.add_piece(p, expected=fn)
+    vf.add("}\n")
     vf.add("impl LifetimeEnv {\n" + EXTEND_BOUNDS)
     it = src.item("impl LifetimeEnv::extend_implicit_lifetime_bounds", "fn")
     p = Piece(src, it)
@@ -367,7 +625,9 @@ def build(tier):
 
 CANARY_FUNCTIONS = ["extend_implicit_lifetime_bounds"]
 ASSUMPTIONS = [
-    "callee LifetimeTransitivity::longer_than assumed to return exactly the names transitively longer than its argument (part B: dfs)",
+    "LifetimeTransitivity::{new, visit, dfs, finish, longer_than, shorter_than} and LongerOrShorter::edges are verified in this unit (the DFS visits exactly the lifetimes reachable in the chosen direction); termination of the recursive dfs is NOT proved (exec_allows_no_decreases_clause)",
+    "E7: Iterator::position desugared to an index loop; `&v[..]` spelled `v.as_slice()`; derived PartialEq on NamedLifetime structural (__name_eq)",
+    "precondition wf_env: every edge index is < nodes.len() (extend_bounds pushes only ids it has just looked up)",
     "callee extend_bounds assumed to add the edge long -> short for every (lifetime, bound) pair and to remove nothing; the generic iterator signature is specialised to Vec<(&NamedLifetime, Option<&NamedLifetime>)> (E7/E11)",
     "Vec<&NamedLifetime>::contains is a linear search with structural equality (A-iter, A-derive)",
     "precondition: the named lifetimes involved are declared in the env (extend_generics ran first; otherwise the code's `expect` fires: documented bug trap) and names are distinct (extend_lifetimes panics on duplicates)",
